@@ -1,5 +1,5 @@
 CONSTANTS P = 103  A = 0  B = 5  Gx = 2  Gy = 42  N = 97
-          SignZ = {1, 2, 96, 97, 98}  VerZ = {1, 97, 98}  VerQ = {2, 3, 30, 50, 70, 95, 96, 97}  RecZ = {1, 97}
+          SignZ = {1, 2, 96, 97, 98}  VerZ = {1, 97, 98}  VerQ = {2, 50, 96, 97}  RecZ = {1, 97}
 SPECIFICATION Spec
 INVARIANT ReturnedVerifies
 CHECK_DEADLOCK FALSE
